@@ -69,22 +69,16 @@ pub fn write_metric_line<T, T2>(
     T: std::fmt::Display,
     T2: std::fmt::Display,
 {
+    // The unit belongs to the metric (family) name, so it comes before any type-specific suffix such
+    // as `_bucket`, `_sum` or `_count`: `request_duration_seconds_bucket`.
     buffer.push_str(name);
+    if let Some(unit_suffix) = unit_suffix(unit) {
+        buffer.push('_');
+        buffer.push_str(unit_suffix);
+    }
     if let Some(suffix) = suffix {
         buffer.push('_');
         buffer.push_str(suffix);
-    }
-
-    match unit {
-        Some(Unit::Count) | None => {}
-        Some(Unit::Percent) => {
-            buffer.push('_');
-            buffer.push_str("ratio");
-        }
-        Some(unit) => {
-            buffer.push('_');
-            buffer.push_str(unit.as_str());
-        }
     }
 
     if !labels.is_empty() || additional_label.is_some() {
@@ -116,6 +110,23 @@ pub fn write_metric_line<T, T2>(
     buffer.push(' ');
     buffer.push_str(value.to_string().as_str());
     buffer.push('\n');
+}
+
+/// Gets the suffix that a unit adds to a metric name, if any.
+pub(crate) fn unit_suffix(unit: Option<Unit>) -> Option<&'static str> {
+    match unit {
+        Some(Unit::Count) | None => None,
+        Some(Unit::Percent) => Some("ratio"),
+        Some(unit) => Some(unit.as_str()),
+    }
+}
+
+/// Gets the name of a metric family: the metric name, plus its unit suffix if there is one.
+pub(crate) fn family_name(name: &str, unit: Option<Unit>) -> String {
+    match unit_suffix(unit) {
+        Some(unit_suffix) => format!("{name}_{unit_suffix}"),
+        None => name.to_string(),
+    }
 }
 
 /// Sanitizes a metric name to be valid under the Prometheus [data model].
